@@ -328,6 +328,16 @@ func isSingleRefElement(ref string) bool {
 	return !strings.Contains(ref, "#")
 }
 
+// refKey identifies a reference being resolved by the kind of object expected and the
+// absolute location designated, so that equal spellings in different documents, or the same
+// location reached from positions of different kinds, are not mistaken for one another.
+func (loader *Loader) refKey(kind, ref string, documentPath *url.URL) string {
+	if resolved, err := loader.resolveRefPath(ref, documentPath); err == nil && resolved != nil {
+		return kind + " " + resolved.String()
+	}
+	return kind + " " + ref
+}
+
 func (loader *Loader) visitRef(ref string) {
 	if loader.visitedRefs == nil {
 		loader.visitedRefs = make(map[string]struct{})
@@ -624,17 +634,18 @@ func (loader *Loader) resolveHeaderRef(doc *T, component *HeaderRef, documentPat
 	}
 
 	if ref := component.Ref; ref != "" {
+		key := loader.refKey("header", ref, documentPath)
 		if component.Value != nil {
 			return nil
 		}
-		if !loader.shouldVisitRef(ref, func(value any) {
+		if !loader.shouldVisitRef(key, func(value any) {
 			component.Value = value.(*Header)
 			refPath, _ := loader.resolveRefPath(ref, documentPath)
 			component.setRefPath(refPath)
 		}) {
 			return nil
 		}
-		loader.visitRef(ref)
+		loader.visitRef(key)
 		if isSingleRefElement(ref) {
 			var header Header
 			if documentPath, err = loader.loadSingleElementFromURI(ref, documentPath, &header); err != nil {
@@ -657,7 +668,7 @@ func (loader *Loader) resolveHeaderRef(doc *T, component *HeaderRef, documentPat
 			component.Value = resolved.Value
 			component.setRefPath(resolved.RefPath())
 		}
-		defer loader.unvisitRef(ref, component.Value)
+		defer loader.unvisitRef(key, component.Value)
 	}
 	value := component.Value
 	if value == nil {
@@ -718,17 +729,18 @@ func (loader *Loader) resolveParameterRef(doc *T, component *ParameterRef, docum
 	}
 
 	if ref := component.Ref; ref != "" {
+		key := loader.refKey("parameter", ref, documentPath)
 		if component.Value != nil {
 			return nil
 		}
-		if !loader.shouldVisitRef(ref, func(value any) {
+		if !loader.shouldVisitRef(key, func(value any) {
 			component.Value = value.(*Parameter)
 			refPath, _ := loader.resolveRefPath(ref, documentPath)
 			component.setRefPath(refPath)
 		}) {
 			return nil
 		}
-		loader.visitRef(ref)
+		loader.visitRef(key)
 		if isSingleRefElement(ref) {
 			var param Parameter
 			if documentPath, err = loader.loadSingleElementFromURI(ref, documentPath, &param); err != nil {
@@ -751,7 +763,7 @@ func (loader *Loader) resolveParameterRef(doc *T, component *ParameterRef, docum
 			component.Value = resolved.Value
 			component.setRefPath(resolved.RefPath())
 		}
-		defer loader.unvisitRef(ref, component.Value)
+		defer loader.unvisitRef(key, component.Value)
 	}
 	value := component.Value
 	if value == nil {
@@ -783,17 +795,18 @@ func (loader *Loader) resolveRequestBodyRef(doc *T, component *RequestBodyRef, d
 	}
 
 	if ref := component.Ref; ref != "" {
+		key := loader.refKey("requestbody", ref, documentPath)
 		if component.Value != nil {
 			return nil
 		}
-		if !loader.shouldVisitRef(ref, func(value any) {
+		if !loader.shouldVisitRef(key, func(value any) {
 			component.Value = value.(*RequestBody)
 			refPath, _ := loader.resolveRefPath(ref, documentPath)
 			component.setRefPath(refPath)
 		}) {
 			return nil
 		}
-		loader.visitRef(ref)
+		loader.visitRef(key)
 		if isSingleRefElement(ref) {
 			var requestBody RequestBody
 			if documentPath, err = loader.loadSingleElementFromURI(ref, documentPath, &requestBody); err != nil {
@@ -816,7 +829,7 @@ func (loader *Loader) resolveRequestBodyRef(doc *T, component *RequestBodyRef, d
 			component.Value = resolved.Value
 			component.setRefPath(resolved.RefPath())
 		}
-		defer loader.unvisitRef(ref, component.Value)
+		defer loader.unvisitRef(key, component.Value)
 	}
 	value := component.Value
 	if value == nil {
@@ -835,17 +848,18 @@ func (loader *Loader) resolveResponseRef(doc *T, component *ResponseRef, documen
 	}
 
 	if ref := component.Ref; ref != "" {
+		key := loader.refKey("response", ref, documentPath)
 		if component.Value != nil {
 			return nil
 		}
-		if !loader.shouldVisitRef(ref, func(value any) {
+		if !loader.shouldVisitRef(key, func(value any) {
 			component.Value = value.(*Response)
 			refPath, _ := loader.resolveRefPath(ref, documentPath)
 			component.setRefPath(refPath)
 		}) {
 			return nil
 		}
-		loader.visitRef(ref)
+		loader.visitRef(key)
 		if isSingleRefElement(ref) {
 			var resp Response
 			if documentPath, err = loader.loadSingleElementFromURI(ref, documentPath, &resp); err != nil {
@@ -868,7 +882,7 @@ func (loader *Loader) resolveResponseRef(doc *T, component *ResponseRef, documen
 			component.Value = resolved.Value
 			component.setRefPath(resolved.RefPath())
 		}
-		defer loader.unvisitRef(ref, component.Value)
+		defer loader.unvisitRef(key, component.Value)
 	}
 	value := component.Value
 	if value == nil {
@@ -899,17 +913,18 @@ func (loader *Loader) resolveSchemaRef(doc *T, component *SchemaRef, documentPat
 	}
 
 	if ref := component.Ref; ref != "" {
+		key := loader.refKey("schema", ref, documentPath)
 		if component.Value != nil {
 			return nil
 		}
-		if !loader.shouldVisitRef(ref, func(value any) {
+		if !loader.shouldVisitRef(key, func(value any) {
 			component.Value = value.(*Schema)
 			refPath, _ := loader.resolveRefPath(ref, documentPath)
 			component.setRefPath(refPath)
 		}) {
 			return nil
 		}
-		loader.visitRef(ref)
+		loader.visitRef(key)
 		if isSingleRefElement(ref) {
 			var schema Schema
 			if documentPath, err = loader.loadSingleElementFromURI(ref, documentPath, &schema); err != nil {
@@ -932,7 +947,7 @@ func (loader *Loader) resolveSchemaRef(doc *T, component *SchemaRef, documentPat
 			component.Value = resolved.Value
 			component.setRefPath(resolved.RefPath())
 		}
-		defer loader.unvisitRef(ref, component.Value)
+		defer loader.unvisitRef(key, component.Value)
 	}
 	value := component.Value
 	if value == nil {
@@ -985,17 +1000,18 @@ func (loader *Loader) resolveSecuritySchemeRef(doc *T, component *SecurityScheme
 	}
 
 	if ref := component.Ref; ref != "" {
+		key := loader.refKey("securityscheme", ref, documentPath)
 		if component.Value != nil {
 			return nil
 		}
-		if !loader.shouldVisitRef(ref, func(value any) {
+		if !loader.shouldVisitRef(key, func(value any) {
 			component.Value = value.(*SecurityScheme)
 			refPath, _ := loader.resolveRefPath(ref, documentPath)
 			component.setRefPath(refPath)
 		}) {
 			return nil
 		}
-		loader.visitRef(ref)
+		loader.visitRef(key)
 		if isSingleRefElement(ref) {
 			var scheme SecurityScheme
 			if _, err = loader.loadSingleElementFromURI(ref, documentPath, &scheme); err != nil {
@@ -1018,24 +1034,25 @@ func (loader *Loader) resolveSecuritySchemeRef(doc *T, component *SecurityScheme
 			component.Value = resolved.Value
 			component.setRefPath(resolved.RefPath())
 		}
-		defer loader.unvisitRef(ref, component.Value)
+		defer loader.unvisitRef(key, component.Value)
 	}
 	return nil
 }
 
 func (loader *Loader) resolveExampleRef(doc *T, component *ExampleRef, documentPath *url.URL) (err error) {
 	if ref := component.Ref; ref != "" {
+		key := loader.refKey("example", ref, documentPath)
 		if component.Value != nil {
 			return nil
 		}
-		if !loader.shouldVisitRef(ref, func(value any) {
+		if !loader.shouldVisitRef(key, func(value any) {
 			component.Value = value.(*Example)
 			refPath, _ := loader.resolveRefPath(ref, documentPath)
 			component.setRefPath(refPath)
 		}) {
 			return nil
 		}
-		loader.visitRef(ref)
+		loader.visitRef(key)
 		if isSingleRefElement(ref) {
 			var example Example
 			if _, err = loader.loadSingleElementFromURI(ref, documentPath, &example); err != nil {
@@ -1058,7 +1075,7 @@ func (loader *Loader) resolveExampleRef(doc *T, component *ExampleRef, documentP
 			component.Value = resolved.Value
 			component.setRefPath(resolved.RefPath())
 		}
-		defer loader.unvisitRef(ref, component.Value)
+		defer loader.unvisitRef(key, component.Value)
 	}
 	return nil
 }
@@ -1069,17 +1086,18 @@ func (loader *Loader) resolveCallbackRef(doc *T, component *CallbackRef, documen
 	}
 
 	if ref := component.Ref; ref != "" {
+		key := loader.refKey("callback", ref, documentPath)
 		if component.Value != nil {
 			return nil
 		}
-		if !loader.shouldVisitRef(ref, func(value any) {
+		if !loader.shouldVisitRef(key, func(value any) {
 			component.Value = value.(*Callback)
 			refPath, _ := loader.resolveRefPath(ref, documentPath)
 			component.setRefPath(refPath)
 		}) {
 			return nil
 		}
-		loader.visitRef(ref)
+		loader.visitRef(key)
 		if isSingleRefElement(ref) {
 			var resolved Callback
 			if documentPath, err = loader.loadSingleElementFromURI(ref, documentPath, &resolved); err != nil {
@@ -1102,7 +1120,7 @@ func (loader *Loader) resolveCallbackRef(doc *T, component *CallbackRef, documen
 			component.Value = resolved.Value
 			component.setRefPath(resolved.RefPath())
 		}
-		defer loader.unvisitRef(ref, component.Value)
+		defer loader.unvisitRef(key, component.Value)
 	}
 	value := component.Value
 	if value == nil {
@@ -1125,17 +1143,18 @@ func (loader *Loader) resolveLinkRef(doc *T, component *LinkRef, documentPath *u
 	}
 
 	if ref := component.Ref; ref != "" {
+		key := loader.refKey("link", ref, documentPath)
 		if component.Value != nil {
 			return nil
 		}
-		if !loader.shouldVisitRef(ref, func(value any) {
+		if !loader.shouldVisitRef(key, func(value any) {
 			component.Value = value.(*Link)
 			refPath, _ := loader.resolveRefPath(ref, documentPath)
 			component.setRefPath(refPath)
 		}) {
 			return nil
 		}
-		loader.visitRef(ref)
+		loader.visitRef(key)
 		if isSingleRefElement(ref) {
 			var link Link
 			if _, err = loader.loadSingleElementFromURI(ref, documentPath, &link); err != nil {
@@ -1158,7 +1177,7 @@ func (loader *Loader) resolveLinkRef(doc *T, component *LinkRef, documentPath *u
 			component.Value = resolved.Value
 			component.setRefPath(resolved.RefPath())
 		}
-		defer loader.unvisitRef(ref, component.Value)
+		defer loader.unvisitRef(key, component.Value)
 	}
 	return nil
 }
@@ -1170,15 +1189,16 @@ func (loader *Loader) resolvePathItemRef(doc *T, pathItem *PathItem, documentPat
 	}
 
 	if ref := pathItem.Ref; ref != "" {
+		key := loader.refKey("pathItem", ref, documentPath)
 		if !pathItem.isEmpty() {
 			return
 		}
-		if !loader.shouldVisitRef(ref, func(value any) {
+		if !loader.shouldVisitRef(key, func(value any) {
 			*pathItem = *value.(*PathItem)
 		}) {
 			return nil
 		}
-		loader.visitRef(ref)
+		loader.visitRef(key)
 		if isSingleRefElement(ref) {
 			var p PathItem
 			if documentPath, err = loader.loadSingleElementFromURI(ref, documentPath, &p); err != nil {
@@ -1196,7 +1216,7 @@ func (loader *Loader) resolvePathItemRef(doc *T, pathItem *PathItem, documentPat
 			*pathItem = resolved
 		}
 		pathItem.Ref = ref
-		defer loader.unvisitRef(ref, pathItem)
+		defer loader.unvisitRef(key, pathItem)
 	}
 
 	for _, parameter := range pathItem.Parameters {
